@@ -134,17 +134,25 @@ impl Position {
                     None
                 }
             }
-        } else if let (Some(w), Some(h)) = (self.width, self.height) {
-            if let Some((x1, x2)) = x_ext {
-                Some(BoundingBox::new(x1, 0., x2, h))
-            } else if let Some((y1, y2)) = y_ext {
-                Some(BoundingBox::new(0., y1, w, y2))
-            } else {
-                // if x/y (etc) are absent, SVG says they are treated as zero.
-                Some(BoundingBox::new(0., 0., w, h))
-            }
         } else {
-            None
+            // if x/y (etc) are absent on an axis, SVG says they are treated as zero.
+            let x_ext = x_ext.or(self.origin_extent(self.width));
+            let y_ext = y_ext.or(self.origin_extent(self.height));
+            if let (Some((x1, x2)), Some((y1, y2))) = (x_ext, y_ext) {
+                Some(BoundingBox::new(x1, y1, x2, y2))
+            } else {
+                None
+            }
+        }
+    }
+
+    /// Extent of an axis given by a length only: the absent position is zero, which is
+    /// the start for most shapes and the centre (cx / cy) for an ellipse.
+    fn origin_extent(&self, length: Option<f32>) -> Option<(f32, f32)> {
+        match length {
+            Some(len) if self.shape == "ellipse" => Some((-len / 2., len / 2.)),
+            Some(len) => Some((0., len)),
+            None => None,
         }
     }
 
